@@ -40,3 +40,38 @@ size_t strnlen(const char *s, size_t maxlen)
 	while (n < maxlen && s[n] != '\0') ++n;
 	return n;
 }
+char *strstr(const char *h, const char *n)
+{
+	size_t i, j;
+	if (n[0] == '\0') return (char *) h;
+	for (i = 0; h[i] != '\0'; ++i) {
+		for (j = 0; n[j] != '\0' && h[i + j] == n[j]; ++j) { }
+		if (n[j] == '\0') return (char *) (h + i);
+	}
+	return (char *) 0;
+}
+char *strcasestr(const char *h, const char *n)
+{
+	size_t i, j;
+	if (n[0] == '\0') return (char *) h;
+	for (i = 0; h[i] != '\0'; ++i) {
+		for (j = 0; n[j] != '\0'; ++j) {
+			int a = h[i + j], b = n[j];
+			if (a >= 'A' && a <= 'Z') a += 32;
+			if (b >= 'A' && b <= 'Z') b += 32;
+			if (a == '\0' || a != b) break;
+		}
+		if (n[j] == '\0') return (char *) (h + i);
+	}
+	return (char *) 0;
+}
+void *memmem(const void *h, size_t hl, const void *n, size_t nl)
+{
+	size_t i, j;
+	if (nl == 0) return (void *) h;
+	for (i = 0; i + nl <= hl; ++i) {
+		for (j = 0; j < nl && ((const unsigned char *) h)[i + j] == ((const unsigned char *) n)[j]; ++j) { }
+		if (j == nl) return (void *) ((const unsigned char *) h + i);
+	}
+	return (void *) 0;
+}
